@@ -104,7 +104,15 @@ pub mod mm {
             // Micromath yields a NaN but others return zero
             return 0.0;
         }
-        mm::atan2(y, x)
+        // Micromath squares its arguments, which underflows for vectors
+        // shorter than about 1e-23 and overflows for ones longer than
+        // about 1e19, giving NaN: scale the larger component to one
+        let m = mm::abs(x).max(mm::abs(y));
+        if m > 0.0 && m < f32::INFINITY {
+            mm::atan2(y / m, x / m)
+        } else {
+            mm::atan2(y, x)
+        }
     }
 }
 
